@@ -27,8 +27,8 @@ RULE = ('in-process runs of small worlds under every subset of {--gc a [b [c]], 
         'raised. distinct = option subset x abort kind x hook-site digest; non-trivial = at '
         'least one state-changing option and the run reached the test phase')
 GCFLAGS = ['DEBUG_UNCOLLECTABLE', 'DEBUG_SAVEALL', 'DEBUG_LEAK']
-ABORTS = ['normal', 'failing', 'testSetUp-raises', 'testTearDown-raises', 'kbd-test',
-          'kbd-layer-hook', 'stop-on-error', 'post-mortem']
+ABORTS = ['normal', 'failing', 'testSetUp-raises', 'testTearDown-raises', 'both-hooks-raise',
+          'kbd-test', 'kbd-layer-hook', 'stop-on-error', 'post-mortem']
 
 
 def gen(seed):
@@ -56,13 +56,24 @@ def gen(seed):
     tests = [d for d in disc if C.test_phases(d)]
     if abort == 'failing' and tests:
         plan += C.gen_test_faults(rng, disc, 2, excs=['AssertionError', 'ValueError'], p_occ=0)
-    elif abort in ('testSetUp-raises', 'testTearDown-raises'):
-        hook = abort.split('-')[0]
-        cands = [L['name'] for L in world['layers'] if m.has_hook(L['name'], hook)]
-        if cands:
-            plan.append({'site': 'layer.' + hook, 'ident': rng.choice(cands), 'a': 'raise',
-                         'exc': rng.choice(['ValueError', 'KeyError']),
-                         'occ': rng.choice([0, 1])})
+    elif abort in ('testSetUp-raises', 'testTearDown-raises', 'both-hooks-raise'):
+        hooks = ['testSetUp', 'testTearDown'] if abort == 'both-hooks-raise' \
+            else [abort.split('-')[0]]
+        for hook in hooks:
+            cands = [L['name'] for L in world['layers'] if m.has_hook(L['name'], hook)]
+            if cands:
+                e = {'site': 'layer.' + hook, 'ident': rng.choice(cands), 'a': 'raise',
+                     'exc': rng.choice(['ValueError', 'KeyError'])}
+                if abort != 'both-hooks-raise' or hook == 'testSetUp':
+                    e['occ'] = rng.choice([0, 1, 2])
+                plan.append(e)
+        # the hook may fire around a test of any outcome (skipped inside the test, failing, ...)
+        if rng.random() < 0.6:
+            plan += C.gen_test_faults(rng, disc, rng.randint(1, 3),
+                                      excs=['SkipTest', 'SkipTest', 'AssertionError',
+                                            'ValueError'], p_occ=0)
+        if rng.random() < 0.4:
+            plan = _ws.gen_writes(rng, disc, 2) + plan
     elif abort == 'kbd-test' and tests:
         d = rng.choice(tests)
         plan.append(C.fault_entry(d, rng.choice(C.test_phases(d)),
